@@ -9,7 +9,7 @@ type Violation struct {
 }
 
 // MaxCounters bounds fault kinds / reach probes per scenario.
-const MaxCounters = 64
+const MaxCounters = 128
 
 // Rec collects what one run did. Counter updates are norace so that tasks
 // may call them; names are registered before the run.
